@@ -107,6 +107,27 @@ def run_shard(spec):
                               {"kind": "height", "height": h}))
         if len(viol) > 5:
             break
+    # history lane: the same heights in random order, each asked 1-3 times in a row, low and far heights interleaved
+    # (the schedule is a function of the height alone, whatever was asked before)
+    pool = sorted(heights)
+    low = [h for h in pool if h < 30 * ref.HALVING_INTERVAL]
+    far = [h for h in pool if h >= 64 * ref.HALVING_INTERVAL] + [64 * ref.HALVING_INTERVAL + 10, 67_200_000, 68_250_000,
+                                                                  128 * ref.HALVING_INTERVAL, 93 * ref.HALVING_INTERVAL + 5]
+    mid = [h for h in pool if 30 * ref.HALVING_INTERVAL <= h < 64 * ref.HALVING_INTERVAL]
+    nseq = 60000 if spec["tier"] == "quick" else 1500000
+    repeats = 0
+    for _ in range(nseq):
+        h = rng.choice(rng.choice([low, far, mid, pool]))
+        for _k in range(rng.choice([1, 2, 3])):
+            s = f(h)
+            n += 1
+            repeats += 1
+            if s != ref.subsidy(h):
+                viol.append(_viol("subsidy-depends-on-earlier-queries", "subsidy(%d)=%r after other queries, schedule says %d" % (
+                    h, s, ref.subsidy(h)), {"kind": "edges"}))
+                break
+        if len(viol) > 5:
+            break
     # zero from the point where halving exhausts it
     first_zero = 30 * ref.HALVING_INTERVAL
     if f(first_zero) != 0 or f(first_zero - 1) != 1:
@@ -159,7 +180,7 @@ def run_shard(spec):
         if not re.search(pat, doc):
             viol.append(_viol("documentation-changed", "docs/params.md no longer states: %s" % name, {"kind": "edges"}))
     return {"evaluations": n, "distinct": len(heights), "violations": viol,
-            "counters": {"edge_heights": len(heights), "amount_limit_probe": {str(k): int(v) for k, v in limit_probe.items()},
+            "counters": {"edge_heights": len(heights), "history_lane_queries": repeats, "amount_limit_probe": {str(k): int(v) for k, v in limit_probe.items()},
                          "constants_checked": len(consts)},
             "samples": [{"height": h, "subsidy": f(h)} for h in (0, 1_049_999, 1_050_000, 31_499_999, 31_500_000, (1 << 32) - 1)]}
 
